@@ -131,6 +131,7 @@ type reqInfo struct {
 
 // scripted transport shared by all backends of one script
 type fakeRT struct {
+	reqH, trH string // configured request-id / trace header names
 	mu      sync.Mutex
 	byHost  map[string]string // host -> backend name
 	mode    map[string]string // backend name -> persistent behaviour override
@@ -175,8 +176,7 @@ func (rt *fakeRT) RoundTrip(r *http.Request) (*http.Response, error) {
 		n, _ = io.Copy(io.Discard, r.Body)
 	}
 	emit(map[string]any{"ev": "dispatch", "id": id, "b": name, "method": r.Method, "path": r.URL.Path,
-		"rid": r.Header.Values("X-Request-ID"), "tid": r.Header.Values("X-Trace-ID"),
-		"crid": r.Header.Values("X-Correlation-ID"), "xff": r.Header.Get("X-Forwarded-For"),
+		"rid": nn(r.Header.Values(rt.reqH)), "tid": nn(r.Header.Values(rt.trH)), "xff": r.Header.Get("X-Forwarded-For"),
 		"probe": r.Header.Get("X-Verif-Probe"), "reqbody": n, "apikey": r.Header.Get("X-API-Key"),
 		"xfrom": r.Header.Get("X-From")})
 	if plan == "hold" && info != nil && info.held != nil {
@@ -251,6 +251,20 @@ func (p *probeRT) RoundTrip(r *http.Request) (*http.Response, error) {
 	return nil, errors.New("probe: connection refused")
 }
 
+func nn(v []string) []string {
+	if v == nil {
+		return []string{}
+	}
+	return v
+}
+
+func hdrName(configured, def string) string {
+	if strings.TrimSpace(configured) == "" {
+		return def
+	}
+	return strings.TrimSpace(configured)
+}
+
 func hostOf(name string) string { return name + ".backend.test:80" }
 
 type sim struct {
@@ -316,7 +330,8 @@ func (s *sim) patchTransports() {
 
 func (s *sim) setup() bool {
 	s.cfg = s.buildConfig()
-	s.rt = &fakeRT{byHost: map[string]string{}, mode: map[string]string{}, heldSig: make(chan int, 64)}
+	s.rt = &fakeRT{byHost: map[string]string{}, mode: map[string]string{}, heldSig: make(chan int, 64),
+		reqH: hdrName(s.sc.Cfg.IDs.ReqHeader, "X-Request-ID"), trH: hdrName(s.sc.Cfg.IDs.TrHeader, "X-Trace-ID")}
 	s.prt = &probeRT{byHost: map[string]string{}, result: map[string]string{}, stop: &s.stopped}
 	for _, b := range s.sc.Cfg.Backends {
 		s.prt.byHost[hostOf(b.Name)] = b.Name
@@ -404,7 +419,7 @@ func (s *sim) doReq(st step) {
 		if v == "\x00absent" {
 			continue
 		}
-		req.Header[http.CanonicalHeaderKey(k)] = []string{v}
+		req.Header[http.CanonicalHeaderKey(k)] = strings.Split(v, "\x01") // \x01 separates multiple values
 	}
 	info := &reqInfo{id: st.ID, plan: st.Plan}
 	if st.Plan == "hold" {
@@ -417,7 +432,7 @@ func (s *sim) doReq(st step) {
 	ctx = context.WithValue(ctx, http.ServerContextKey, &http.Server{})
 	req = req.WithContext(ctx)
 	emit(map[string]any{"ev": "req", "id": st.ID, "client": client, "plan": st.Plan,
-		"rid_in": req.Header.Values("X-Request-ID"), "tid_in": req.Header.Values("X-Trace-ID")})
+		"rid_in": nn(req.Header.Values(s.rt.reqH)), "tid_in": nn(req.Header.Values(s.rt.trH))})
 	done := make(chan map[string]any, 1)
 	s.done[st.ID] = done
 	go func() {
@@ -443,9 +458,8 @@ func (s *sim) doReq(st step) {
 		ev["kind"] = classify(res.StatusCode, string(b), false)
 		ev["len"] = len(b)
 		ev["backend"] = res.Header.Get("X-Backend")
-		ev["rid"] = res.Header.Values("X-Request-ID")
-		ev["tid"] = res.Header.Values("X-Trace-ID")
-		ev["crid"] = res.Header.Values("X-Correlation-ID")
+		ev["rid"] = nn(res.Header.Values(s.rt.reqH))
+		ev["tid"] = nn(res.Header.Values(s.rt.trH))
 		ev["xapp"] = res.Header.Get("X-App")
 	}()
 	s.await(st.ID)
@@ -617,6 +631,27 @@ func (s *sim) run() {
 			s.doAdmin(st)
 		case "snap":
 			s.snapshot(st.S)
+		case "burst":
+			// N concurrent requests without client IDs: the generated IDs must be unique
+			type pair struct{ r, t []string }
+			ch := make(chan pair, st.N)
+			for i := 0; i < st.N; i++ {
+				go func() {
+					req := httptest.NewRequest("GET", "http://helios.test/", nil)
+					req.RemoteAddr = "10.9.9.9:40000"
+					ctx := context.WithValue(req.Context(), ctxKey("info"), &reqInfo{id: -2, plan: "ok"})
+					rec := httptest.NewRecorder()
+					s.handler.ServeHTTP(rec, req.WithContext(ctx))
+					ch <- pair{nn(rec.Result().Header.Values(s.rt.reqH)), nn(rec.Result().Header.Values(s.rt.trH))}
+				}()
+			}
+			rids, tids := []string{}, []string{}
+			for i := 0; i < st.N; i++ {
+				p := <-ch
+				rids = append(rids, p.r...)
+				tids = append(tids, p.t...)
+			}
+			emit(map[string]any{"ev": "burst", "n": st.N, "rids": rids, "tids": tids})
 		case "stop":
 			fin := make(chan struct{})
 			go func() { s.lb.Stop(); close(fin) }()
